@@ -302,6 +302,160 @@ def check_datadriven_oracle(ctx, fn, a, k, out, bins, case):
                 return
 
 
+# ---- _run_numpy_jenks_matrices / _run_jenks vs the extracted IMPERATIVE model (coq/C12/JenksImp.v) ----------
+def gen_jenks_imp_cases(ctx):
+    """sorted small integer / dyadic data (exact in float32, squares too), n = 2..10 (14 thorough), k = 1..5;
+    kinds: all-distinct, tie-heavy (few distinct values, skewed multiplicities), fewer distinct values than k
+    (the back-tracking underflows: natural_breaks never gets there, _run_jenks does what the model says)"""
+    rng = ctx.rng
+    count = 160 if ctx.quick() else 3000
+    nmax = 10 if ctx.quick() else 14
+    for i in range(count):
+        kind = ['distinct', 'ties', 'dyadic', 'ints', 'fewdistinct'][i % 5]
+        n = rng.randint(2, nmax)
+        k = rng.randint(1, 5)
+        if kind == 'distinct':
+            vals = [float(v) for v in rng.sample(range(-30, 90), n)]
+        elif kind == 'ties':
+            distinct = rng.sample(range(0, 40), rng.randint(2, 5))
+            vals = []
+            for d_ in distinct:
+                vals += [float(d_)] * rng.choice([1, 1, 2, 2, 3, 5])
+            rng.shuffle(vals)
+            vals = vals[:nmax]
+            if len(vals) < 2:
+                vals = vals + vals
+        elif kind == 'dyadic':
+            vals = [rng.randint(-80, 160) / 8.0 for _ in range(n)]
+        elif kind == 'ints':
+            vals = [float(rng.randint(0, 12)) for _ in range(n)]
+        else:
+            distinct = rng.sample(range(0, 20), rng.randint(1, 2))
+            vals = [float(rng.choice(distinct)) for _ in range(n)]
+            k = rng.randint(2, 5)
+        yield dict(fn='jenks_matrices', k=k, data=sorted(vals), kind=kind)
+
+
+def run_jenks_impl(classify, case):
+    arr = np.array(case['data'], dtype='float64')
+    L, V = classify._run_numpy_jenks_matrices(arr.copy(), case['k'])
+    kclass = classify._run_jenks(arr.copy(), case['k'])
+    return np.asarray(L), np.asarray(V), [float(x) for x in np.asarray(kclass).tolist()]
+
+
+def check_jenks_breaks_oracle(ctx, case, kclass):
+    """property text on _run_jenks' own output: with at least k distinct values the breaks kclass[1:] (last := max),
+    used as 'first bin >= value', split the data into classes of minimum within-class SSD (exact brute force)"""
+    vals = [Fraction(v) for v in case['data']]
+    k = case['k']
+    if len(set(vals)) < k:
+        return
+    bins = list(kclass[1:])
+    bins[-1] = float(max(vals))
+    groups = {}
+    for v in vals:
+        i = first_bin_oracle(bins, v)
+        if i is None:
+            ctx.violation('oracle', '_run_jenks: value %r above the last break (breaks %r)' % (float(v), bins), dict(case, kclass=kclass))
+            return
+        groups.setdefault(i, []).append(v)
+    got = sum(ssd(g) for g in groups.values())
+    best = min_ssd_partition(sorted(vals), k)
+    if got != best:
+        ctx.violation('oracle', '_run_jenks: breaks %r give within-class SSD %s, the minimum over all %d-class partitions is %s' % (
+            bins, float(got), k, float(best)), dict(case, kclass=kclass, got_ssd=float(got), min_ssd=float(best)))
+
+
+def compare_jenks_imp(ctx, case, impl, mo):
+    """impl = (L, V, kclass) from the working tree; mo = the model's output line"""
+    L, V, kclass = impl
+    k = case['k']
+    n = len(case['data'])
+    sc = xvio.scale_for(case['data'])
+    try:
+        cells_s, ok_s, breaks_s, cuts_s = [p.strip() for p in mo.split('|')]
+        cells = [c.split(',') for c in cells_s.split()]
+        assert len(cells) == (n + 1) * (k + 1)
+        m_ok = ok_s == '1'
+        m_breaks = [Fraction(int(t.split('/')[0], 0), int(t.split('/')[1], 0)) / sc for t in breaks_s.split()]
+        m_cuts = [int(t) for t in cuts_s.split()]
+    except Exception:
+        ctx.violation('correspondence', 'jenks matrices: model returned %s' % mo[:120], case)
+        return
+    if L.shape != (n + 1, k + 1) or V.shape != (n + 1, k + 1):
+        ctx.violation('correspondence', 'jenks matrices: implementation shapes %r %r, expected %r' % (L.shape, V.shape, (n + 1, k + 1)), case)
+        return
+    any_tie = False
+    tie = {}
+    compared = 0
+    for r in range(n + 1):
+        for c in range(k + 1):
+            ml, mv, mt = cells[r * (k + 1) + c]
+            tie[(r, c)] = mt == '1'
+            any_tie = any_tie or mt == '1'
+            iv = float(V[r, c])
+            if mv == 'inf':
+                okv = math.isinf(iv) and iv > 0
+                mvf = float('inf')
+            else:
+                num, den = mv.split('/')
+                mvq = Fraction(int(num, 0), int(den, 0)) / (sc * sc)
+                mvf = float(mvq)
+                okv = (not math.isinf(iv)) and (not math.isnan(iv)) and abs(Fraction(iv) - mvq) <= abs(mvq) * Fraction(1, 10 ** 5) + Fraction(1, 10 ** 7)
+            if not okv:
+                ctx.violation('correspondence', 'jenks matrices: var_combinations[%d][%d] = %r, imperative model %r (data %r, k=%d)' % (
+                    r, c, iv, mvf, case['data'], k), dict(case, cell=[r, c], impl=iv, model=mvf))
+                return
+            if mt == '1':
+                continue            # exact tie / near-tie between two candidates: float32 storage may pick either
+            compared += 1
+            if float(L[r, c]) != float(int(ml, 0)):
+                ctx.violation('correspondence', 'jenks matrices: lower_class_limits[%d][%d] = %r, imperative model %s (data %r, k=%d)' % (
+                    r, c, float(L[r, c]), ml, case['data'], k), dict(case, cell=[r, c], impl=float(L[r, c]), model=ml))
+                return
+    ctx.count('jenksimp/cells-compared', compared)
+    # back-tracked breaks: compared exactly unless the path runs through a tied cell
+    if m_ok:
+        rows = [n] + m_cuts
+        on_path_tie = any(tie.get((rows[t], k - t), False) for t in range(min(len(rows), max(k - 1, 0))))
+    else:
+        on_path_tie = any_tie
+    if not on_path_tie:
+        if len(kclass) != len(m_breaks) or any(Fraction(a) != b for a, b in zip(kclass, m_breaks)):
+            ctx.violation('correspondence', '_run_jenks: breaks %r, imperative model %r (data %r, k=%d, bt_ok=%s)' % (
+                kclass, [float(b) for b in m_breaks], case['data'], k, m_ok), dict(case, impl=kclass, model=[float(b) for b in m_breaks]))
+            return
+        ctx.count('jenksimp/breaks-compared')
+    # the precondition of C12_jenks_imp_backtrack_optimal is what natural_breaks guarantees (unclaimed in Coq: checked here)
+    if len(set(case['data'])) >= k and not m_ok:
+        ctx.violation('correspondence', 'jenks back-tracking: data %r have >= %d distinct values but the model\'s back-tracking '
+                      'underflows (jenks_bt_ok = false)' % (case['data'], k), case)
+
+
+def run_jenks_imp_stream(ctx, classify):
+    pend = []
+    for case in gen_jenks_imp_cases(ctx):
+        ctx.case(case)
+        ctx.count('jenksimp/%s/k=%d' % (case['kind'], case['k']))
+        try:
+            impl = run_jenks_impl(classify, case)
+        except Exception as e:
+            ctx.violation('oracle', '_run_jenks raised %s: %s (data %r, k=%d)' % (type(e).__name__, e, case['data'], case['k']), case)
+            continue
+        check_jenks_breaks_oracle(ctx, case, impl[2])
+        sc = xvio.scale_for(case['data'])
+        pend.append(('jenksimp %d %s' % (case['k'], xvio.lst(case['data'], sc)), case, impl))
+    if ctx.model is None or not pend:
+        return
+    outs = ctx.model.run([p[0] for p in pend])
+    for (line, case, impl), mo in zip(pend, outs):
+        ctx.traces += 1
+        if mo.startswith('ERR'):
+            ctx.violation('correspondence', 'jenks matrices: model returned %s' % mo[:80], case)
+            continue
+        compare_jenks_imp(ctx, case, impl, mo)
+
+
 def run(ctx):
     classify = _impl()
     pending = []
@@ -532,6 +686,8 @@ def run(ctx):
                 ctx.violation(kind, 'natural_breaks: within-class SSD of the returned partition %s differs from the minimum %s '
                               '(Coq model jenks_min, proved optimal)' % (float(got), float(best)),
                               dict(case, got_ssd=float(got), min_ssd=float(best)))
+    # ---- the imperative Jenks model vs _run_numpy_jenks_matrices / _run_jenks (rng draws come last) ----
+    run_jenks_imp_stream(ctx, classify)
 
 
 def search(ctx):
@@ -550,6 +706,15 @@ def search(ctx):
 def replay_case(ctx, case):
     classify = _impl()
     fn = case['fn']
+    if fn == 'jenks_matrices':
+        ctx.case(case)
+        try:
+            impl = run_jenks_impl(classify, case)
+        except Exception as e:
+            ctx.violation('oracle', '_run_jenks raised %s: %s' % (type(e).__name__, e), case)
+            return
+        check_jenks_breaks_oracle(ctx, case, impl[2])
+        return
     a = np.array(case['data'], dtype='float64')
     a = np.where(np.isnan(a), a, a).astype(case.get('dtype', 'float64')) if case.get('dtype', 'float64').startswith('f') \
         else np.nan_to_num(a).astype(case['dtype'])
